@@ -34,7 +34,10 @@ Ch = /[ab]/
 ignore Sp = / +/
 start = Stmt /? ";"
 Stmt = Asg | Ex
-class Asg { nm: Wd << "="; val: Ex }
+class Asg { nm: Wd << "="; val: Ex; let mk: (Atom between {
+    postfix: "!"
+    left: "*"
+})? }
 Ex = Atom between {
     mixfix: "(" >> Ex << ")"
     prefix: "-"
@@ -44,9 +47,10 @@ Ex = Atom between {
 Atom = Wd | Nb
 Wd = /[ab]+/
 Nb = /[0-9]+/ |> `int`
-''', {'ignorerule': 'Sp', 'rule': 'Stmt', 'class': 'Asg', 'field': 'nm', 'field2': 'val', 'rule2': 'Ex', 'rule3': 'Atom', 'rule4': 'Nb'},
-           'a1=*;', ['a=1*2', 'a = -b ^ 2 ; 1', '(a)*b', '-(1^2^a);', 'a==', '1 * (2', 'b=a;a=b;']),
+''', {'ignorerule': 'Sp', 'rule': 'Stmt', 'class': 'Asg', 'field': 'nm', 'field2': 'val', 'letfield': 'mk', 'rule2': 'Ex', 'rule3': 'Atom', 'rule4': 'Nb'},
+           'a1=*;', ['a=1*2', 'a = -b ^ 2 ; 1', '(a)*b', '-(1^2^a);', 'a==', '1 * (2', 'b=a;a=b;', 'a=1 b!*2!!', 'a=b 1!;b']),
 }
+ENTRIES = {'G2': (('Ct', (2, ';'), [';a,b', ';a,b,a', ';', 'a']), ('Ct', (0, ','), [',', ',a']))}
 API = {'parse', 'Infix', 'Prefix', 'Postfix', 'ParsedObject', 'ParsingRule', 'InputError', 'ParseError', 'PartialParseError',
        'visit', 'traverse', 'transform'}
 DSL_WORDS = {'class', 'let', 'in', 'pass', 'requires', 'ignore', 'ignored', 'override', 'overrides', 'grammar', 'extends', 'between', 'where',
@@ -70,12 +74,22 @@ def canon(v, mp):
     return v
 
 
-def outcome_table(desc, inputs, mp):
+def outcome_table(desc, inputs, mp, extra_entries=()):
     b = impl.build(desc, include_source=True, time_limit=20.0)
     if b[0] != 'OK':
         return ('COMPILE', b[1] if len(b) > 1 else b[0]), None
     g = b[1]
     out = []
+    inv = {v: k for k, v in mp.items()}
+    for cls, args, texts in extra_entries:
+        # parameterised class used as an entry point:  g.Cls.parse(args)(text)
+        for t in texts:
+            try:
+                parse = getattr(g, inv.get(cls, cls)).parse(*args)
+                o = impl.run(parse, e1.fresh(t), 0, True, spans=True, time_limit=0.5)
+                out.append(('ENTRY', o['kind'], canon(o.get('value'), mp), o.get('index')))
+            except Exception as x:
+                out.append(('ENTRY-EXC', type(x).__name__))
     for t in inputs:
         o = impl.run(g.parse, e1.fresh(t), 0, True, spans=True, time_limit=0.5, raw=True)
         k = o['kind']
@@ -108,12 +122,18 @@ def pool_for(desc, used):
     for tok in tokenize.generate_tokens(io.StringIO(b[1]._source_code).readline):
         if tok.type == tokenize.NAME:
             names.add(tok.string)
+    # names from which the generator derives its own (_parse_<rule>, _try_<rule>, ...): a user name equal to the
+    # remainder of a generated helper's name produces that helper's name
+    for n in list(names):
+        for prefix in ('_parse_', '_try_', '_raise_', '_'):
+            if n.startswith(prefix) and len(n) > len(prefix) and not n[len(prefix):].startswith('_'):
+                names.add(n[len(prefix):])
     import sourcer.expressions as ex
     names |= {n for n in dir(ex) if n[0].isupper()}
     # families the property statement names explicitly
     names |= {'value2', 'item1', 'staging1', 'list', 'len', 'id', 'object', 'dict', 'Seq', 'List', 'Left', 'self', 'text', 'pos',
               'result', 'memo', 'key', 'stack', 'node', 'callback', 'cls', 'type', 'str', 'int', 'tuple', 'set', 'hash', 'getattr', 'isinstance',
-              'reversed', 'enumerate', 'super', 'repr', 'print', 'min', 'max', 'field', 'fields', 'name', 'args', 'kwargs', 'func'}
+              'reversed', 'enumerate', 'super', 'repr', 'print', 'fullparse', 'operand', 'closure', 'min', 'max', 'field', 'fields', 'name', 'args', 'kwargs', 'func'}
     return sorted(n for n in names if not n.startswith('_') and not keyword.iskeyword(n) and n not in API
                   and n not in used and n not in DSL_WORDS)
 
@@ -128,13 +148,14 @@ def job_fn(job):
     inputs = inputs_for(sigma, extra)
     res = {'ctr': {'cases': 0, 'nontrivial': 0, 'states': 1, 'transitions': len(inputs)}, 'sets': {'outcome_kinds': set()},
            'viol': [], 'viol_keys': []}
-    base, _ = outcome_table(desc, inputs, {})
+    extra_entries = ENTRIES.get(gname, ())
+    base, _ = outcome_table(desc, inputs, {}, extra_entries)
     d2 = desc
     mp = {}
     for role, old, new in renames:
         d2 = rename(d2, old, new)
         mp[new] = old
-    got, g = outcome_table(d2, inputs, mp)
+    got, g = outcome_table(d2, inputs, mp, extra_entries)
     res['ctr']['cases'] += len(inputs)
     res['ctr']['nontrivial'] += 1
     if got != base:
